@@ -655,3 +655,177 @@ def enclosing_fn_of(node):
     while p is not None and not isinstance(p, (ast.FunctionDef, ast.AsyncFunctionDef)):
         p = getattr(p, "_parent", None)
     return p
+
+
+# ---------------------------------------------------------------------------- JOIN-KIND
+def rule_join_kind(prog, rep, tier, scope=None, extractor="ast_utils.get_value"):
+    """JOIN-KIND (C04, C06): `sep.join(..)` takes strings only.  An element that is what the literal extractor (`get_value`)
+    took out of a constant node - a str, but just as well an int, a float, a bool (`choices=(1, 2, 3)`, `Literal[1, 2, 3]`) -
+    reaches a join only through something that formats it (`str`, `format`, an f-string, `repr`); a function that can hand its
+    argument back unchanged (`identity`, chosen for the types that need no quotes) does not count."""
+    from sa.rules import nodeflow
+    fns = list(scope) if scope is not None else list(prog.all_functions())
+    ext = prog.fn(extractor)
+    n = 0
+
+    def alternatives(fi, name):
+        """what a local function-valued name may denote: the values assigned to it and the nested functions of that name"""
+        out = []
+        top = fi
+        while top is not None:
+            for st in ast.walk(top.node):
+                if isinstance(st, ast.Assign) and any(isinstance(t, ast.Name) and t.id == name for t in st.targets):
+                    out.append(("expr", st.value))
+                if isinstance(st, (ast.FunctionDef, ast.AsyncFunctionDef)) and st.name == name and st is not top.node:
+                    out.append(("def", st))
+            top = top.parent_fn
+        return out
+
+    def may_be_non_str(fi, e, depth=0):
+        """a witness (the extractor call) when the value of e can be a non-str literal value"""
+        if depth > 5 or e is None:
+            return None
+        if isinstance(e, (ast.Constant, ast.JoinedStr)):
+            return None
+        if isinstance(e, ast.IfExp):
+            return may_be_non_str(fi, e.body, depth + 1) or may_be_non_str(fi, e.orelse, depth + 1)
+        if isinstance(e, ast.Call):
+            f = e.func
+            if isinstance(f, ast.Attribute):
+                return None  # a method result (`"{}".format(x)`, `x.strip()`): a str or not our business
+            if isinstance(f, ast.Name) and f.id in ("str", "repr", "format", "ascii"):
+                return None
+            tg = [t for t in prog.resolve_expr_fn(f, e) if isinstance(t, FunctionInfo)]
+            if any(t is ext for t in tg):
+                return e
+            if not e.args:
+                return None
+            inner = may_be_non_str(fi, e.args[0], depth + 1)
+            if inner is None:
+                return None
+            # does the callee hand its first argument back?  (a local name may denote several functions: `f = identity` and a
+            # nested `def f` chosen under a condition - every one of them counts)
+            if tg and any(nodeflow.may_return_param(prog, t, 0) for t in tg if isinstance(t.node, ast.FunctionDef)):
+                return inner
+            if isinstance(f, ast.Name):
+                for kind, alt in alternatives(fi, f.id):
+                    if kind == "expr" and isinstance(alt, (ast.Name, ast.Attribute)):
+                        for t in prog.resolve_expr_fn(alt, alt):
+                            if isinstance(t, FunctionInfo) and isinstance(t.node, ast.FunctionDef) and nodeflow.may_return_param(prog, t, 0):
+                                return inner
+                    elif kind == "def":
+                        p0 = alt.args.args[0].arg if alt.args.args else None
+                        if p0 and any(isinstance(r, ast.Return) and isinstance(r.value, ast.Name) and r.value.id == p0 for r in ast.walk(alt)):
+                            return inner
+            return None
+        return None
+
+    for fi in fns:
+        for c in ast.walk(fi.node):
+            if not (isinstance(c, ast.Call) and isinstance(c.func, ast.Attribute) and c.func.attr == "join" and len(c.args) == 1):
+                continue
+            if isinstance(c.func.value, ast.Attribute) and c.func.value.attr == "path":
+                continue
+            arg = c.args[0]
+            elts = [arg.elt] if isinstance(arg, (ast.GeneratorExp, ast.ListComp)) else list(arg.elts) if isinstance(arg, (ast.Tuple, ast.List)) else []
+            if isinstance(arg, ast.Call) and isinstance(arg.func, ast.Name) and arg.func.id == "map" and len(arg.args) == 2:
+                # map(f, xs): the element is f(x)
+                fake = ast.copy_location(ast.Call(func=arg.args[0], args=[ast.copy_location(ast.Name(id="_", ctx=ast.Load()), arg)], keywords=[]), arg)
+                fake._parent = arg
+                elts = [fake] if isinstance(arg.args[0], (ast.Name, ast.Attribute)) else []
+            for el in elts:
+                n += 1
+                w = may_be_non_str(fi, el)
+                inst = "%s: %s" % (prog.owner_name(fi), src(c, 60))
+                if w is not None:
+                    rep.violation(Finding(
+                        "JOIN-KIND", prog.owner_name(fi), "join-of-literal-value:%s" % src(c.func.value, 12),
+                        "the elements joined by %s are what %s took out of constant nodes, handed on unformatted (%s): a str for 'a', but an int for 1 - "
+                        "`choices=(1, 2, 3)` / `Literal[1, 2, 3]` makes the join raise TypeError and the whole function fails to parse" % (
+                            src(c, 50), ext.qualname, src(el, 50)), loc(prog, w)))
+                else:
+                    rep.holds("JOIN-KIND", inst, loc(prog, c), "no element is an unformatted literal value")
+    rep.ob("JOIN-KIND", "%d join elements examined in %d functions" % (n, len(fns)), "holds", "", "listed above")
+
+
+# ---------------------------------------------------------------------------- GETVALUE-PART
+def rule_getvalue_part(prog, rep, tier, anchor="ast_utils.get_value"):
+    """GETVALUE-PART (C02, C04, C06, C07): the literal extractor answers `node.value` for the nodes that *hold* a value (a
+    Constant, an Expr / Return / Assign / AnnAssign statement, a keyword).  Several expression classes of the grammar also have a
+    field called `value` that is only a part of them - `np.float32` (Attribute: value = `np`), `table["k"]` (Subscript), a
+    named expression, a dict comprehension, a formatted value.  Every branch of the extractor that answers `<node>.value` is
+    taken only under a class test that admits none of those (taken from the running interpreter's grammar); `hasattr(node,
+    "value")` admits them all, and a default written `np.float32` is read as `np`."""
+    import re as _re
+    from sa.cfg import CFG, facts
+    fi = prog.fn(anchor)
+    if not fi.params():
+        raise AnalysisError("GETVALUE-PART: %s takes no parameter" % anchor)
+    p0 = fi.params()[0]
+    # the classes of this interpreter whose `value` field is an expression and that have another content field
+    parts = set()
+    for name in dir(ast):
+        cls = getattr(ast, name)
+        if not (isinstance(cls, type) and issubclass(cls, ast.expr)) or "value" not in getattr(cls, "_fields", ()):
+            continue
+        m = _re.match(r"\w+\((.*)\)", (cls.__doc__ or "").replace("\n", " "))
+        if not m:
+            continue
+        sig = {part.strip().rpartition(" ")[2]: part.strip().rpartition(" ")[0] for part in m.group(1).split(",") if part.strip()}
+        if sig.get("value", "").rstrip("?") == "expr" and any(f != "value" and t != "expr_context" for f, t in sig.items()):
+            parts.add(name)
+    if not {"Attribute", "Subscript"} <= parts:
+        raise AnalysisError("GETVALUE-PART: the grammar of this interpreter was not read (%r)" % sorted(parts))
+    cfg = CFG(fi.node)
+    n = 0
+    bad = None
+    for path in cfg.paths():
+        last = path[-1][0]
+        if last.kind != "RETURN":
+            continue
+        # does this path answer <p0>.value (directly or through a local assigned from it)?
+        val_names = set()
+        answers = False
+        for node, label in path:
+            st = node.stmt
+            if isinstance(st, ast.Assign) and isinstance(st.value, ast.Attribute) and st.value.attr == "value" and isinstance(st.value.value, ast.Name) and st.value.value.id == p0:
+                val_names |= {t.id for t in st.targets if isinstance(t, ast.Name)}
+            if isinstance(st, ast.Return) and st.value is not None:
+                for x in ast.walk(st.value):
+                    if isinstance(x, ast.Attribute) and x.attr == "value" and isinstance(x.value, ast.Name) and x.value.id == p0:
+                        answers = True
+                    if isinstance(x, ast.Name) and x.id in val_names:
+                        answers = True
+        if not answers:
+            continue
+        n += 1
+        admitted = set(parts)   # the part-classes this path can still be taken for
+        for node, label in path:
+            if label is None or label[0] in ("iter", "except"):
+                continue
+            union = set()
+            for alt in _dnf(label[0], label[1]):
+                adm = set(admitted)
+                for atom, pol in alt:
+                    if isinstance(atom, ast.Call) and isinstance(atom.func, ast.Name) and atom.func.id == "isinstance" and len(atom.args) == 2 \
+                            and isinstance(atom.args[0], ast.Name) and atom.args[0].id == p0:
+                        names = {x.id for x in ast.walk(atom.args[1]) if isinstance(x, ast.Name)} | {x.attr for x in ast.walk(atom.args[1]) if isinstance(x, ast.Attribute)}
+                        if pol:
+                            adm &= names
+                        else:
+                            adm -= names
+                union |= adm   # the condition holds when one of its alternatives does
+            admitted = union
+        if admitted and bad is None:
+            bad = (path, sorted(admitted))
+    if n == 0:
+        raise AnalysisError("GETVALUE-PART: no path of %s answers <node>.value" % anchor)
+    if bad:
+        taken = [src(l[0], 40) + (" is true" if l[1] else " is false") for n_, l in bad[0] if l is not None and l[0] not in ("iter", "except")][-3:]
+        rep.violation(Finding(
+            "GETVALUE-PART", anchor, "value-of-a-part:%s" % "+".join(bad[1][:3]),
+            "%s answers `%s.value` on a path (%s) that %s nodes take too: their `value` is only a part of the expression - a default or an attribute value written "
+            "`np.float32` / `table[\"k\"]` is read as `np` / `table`" % (anchor, p0, "; ".join(taken), ", ".join(bad[1])), loc(prog, fi.node)))
+    else:
+        rep.holds("GETVALUE-PART", "%s: %d path(s) that answer <node>.value" % (anchor, n), loc(prog, fi.node),
+                  "each under a class test that admits none of %s" % ", ".join(sorted(parts)))
